@@ -43,6 +43,7 @@ type structInfo struct {
 	fields []fieldInfo
 	cfg    *StructCfg
 	kept   []fieldInfo
+	extern bool // declared in another package: fields from the configuration
 }
 
 type globalInfo struct {
@@ -64,6 +65,7 @@ type funcInfo struct {
 	done, busy bool
 	stateful   bool // returns an updated receiver
 	panics     bool // returns an outcome
+	emits      bool // returns the list of emitted events last
 	nclock     int
 	oracles    []string
 	recvName   string
@@ -90,6 +92,7 @@ type T struct {
 	out      []string // generated items in dependency order
 	usedIntr map[string]bool
 	reserved map[string]bool
+	skipped  map[int]bool
 }
 
 func (t *T) fail(pos token.Pos, format string, a ...interface{}) {
@@ -116,13 +119,25 @@ func main() {
 	}
 	t := &T{cfg: cfg, repo: *repo, fset: token.NewFileSet(), src: map[string][]byte{}, imports: map[string]bool{},
 		structs: map[string]*structInfo{}, enums: map[string][]string{}, enumOf: map[string]string{}, enumPos: map[string]ast.Node{},
-		globals: map[string]*globalInfo{}, funcs: map[string]*funcInfo{}, usedIntr: map[string]bool{}, reserved: map[string]bool{}}
+		globals: map[string]*globalInfo{}, funcs: map[string]*funcInfo{}, usedIntr: map[string]bool{}, reserved: map[string]bool{}, skipped: map[int]bool{}}
 	text, ferr := t.run()
 	if ferr != "" {
-		// no stale output: the equivalence proofs must not compile against an old file
-		os.Remove(*outPath)
+		// no stale output: the equivalence proofs must not be checked against old
+		// definitions.  The file written instead does not compile (it refers to an
+		// unbound name), so neither does anything that requires it.
+		stub := "(* gotocoq FAILED on the current source — the definitions were NOT regenerated:\n   " +
+			strings.ReplaceAll(ferr, "*)", "* )") + "\n   This file does not compile on purpose. *)\n" +
+			"Definition gotocoq_translation_failed : True := gotocoq_could_not_translate_the_current_source.\n"
+		if err := os.WriteFile(*outPath, []byte(stub), 0o644); err != nil {
+			os.Remove(*outPath)
+		}
 		fmt.Fprintln(os.Stderr, "gotocoq: "+ferr)
 		os.Exit(1)
+	}
+	// an unchanged definition keeps its file (and time stamp), so that make does
+	// not re-check the equivalence proofs when the source did not change
+	if old, err := os.ReadFile(*outPath); err == nil && string(old) == text {
+		return
 	}
 	if err := os.WriteFile(*outPath, []byte(text), 0o644); err != nil {
 		fmt.Fprintln(os.Stderr, "gotocoq:", err)
@@ -154,6 +169,11 @@ func (t *T) run() (text string, failure string) {
 	for _, fc := range t.cfg.Functions {
 		fi := t.funcs[fc.Recv+"."+fc.Name]
 		t.translateFunc(fi, token.NoPos)
+	}
+	for i, sk := range t.cfg.SkipStmts {
+		if !t.skipped[i] {
+			return "", fmt.Sprintf("%s: the statement `%s` named in skip_stmts does not occur in the translated functions any more", t.cfg.Dir, sk.Text)
+		}
 	}
 	return t.header() + strings.Join(t.out, "\n") + "\n", ""
 }
@@ -312,6 +332,20 @@ func (t *T) load() error {
 		}
 		t.reserved[sc.Coq] = true
 		t.reserved["mk_"+sc.Coq] = true
+	}
+	for name, ec := range t.cfg.Externs {
+		si := &structInfo{name: name, extern: true}
+		for _, f := range ec.Fields {
+			si.fields = append(si.fields, fieldInfo{f[0], f[1]})
+			si.kept = append(si.kept, fieldInfo{f[0], f[1]})
+		}
+		for _, ig := range ec.Ignore {
+			si.fields = append(si.fields, fieldInfo{ig, "?"})
+		}
+		si.cfg = &StructCfg{Coq: ec.Coq}
+		t.structs[name] = si
+		t.reserved[ec.Coq] = true
+		t.reserved["mk_"+ec.Coq] = true
 	}
 	for _, in := range t.cfg.Intrinsics {
 		if in.Coq != "" {
@@ -565,6 +599,9 @@ func (t *T) structOrder() []string {
 	for n := range t.cfg.Structs {
 		names = append(names, n)
 	}
+	for n := range t.cfg.Externs {
+		names = append(names, n)
+	}
 	sort.Strings(names)
 	// a record mentioned in a field of another one comes first
 	var out []string
@@ -580,7 +617,7 @@ func (t *T) structOrder() []string {
 			if i := strings.LastIndex(b, "]"); strings.HasPrefix(b, "map[") && i > 0 {
 				b = strings.TrimPrefix(b[i+1:], "*")
 			}
-			if _, ok := t.cfg.Structs[b]; ok {
+			if si := t.structs[b]; si != nil && si.cfg != nil {
 				visit(b)
 			}
 		}
@@ -611,14 +648,20 @@ func (t *T) emitStruct(si *structInfo) {
 			left = append(left, f.name+" "+f.typ)
 		}
 	}
-	fmt.Fprintf(&b, "(* type %s struct\n   %s\n   fields left out: %s *)\n", si.name, t.srcInfo(si.spec.Pos(), si.spec.End()), orNone(strings.Join(left, ", ")))
+	pos := token.NoPos
+	if si.extern {
+		fmt.Fprintf(&b, "(* type %s struct — declared in another package: NOT read from the source,\n   the fields and their types are those of the configuration; fields a literal may set and that are dropped: %s *)\n", si.name, orNone(strings.Join(left, ", ")))
+	} else {
+		pos = si.spec.Pos()
+		fmt.Fprintf(&b, "(* type %s struct\n   %s\n   fields left out: %s *)\n", si.name, t.srcInfo(si.spec.Pos(), si.spec.End()), orNone(strings.Join(left, ", ")))
+	}
 	fmt.Fprintf(&b, "Record %s := mk_%s {\n", c, c)
 	for i, f := range si.kept {
 		sep := ";"
 		if i == len(si.kept)-1 {
 			sep = ""
 		}
-		fmt.Fprintf(&b, "  %s_%s : %s%s\n", c, f.name, t.coqType(si.spec.Pos(), f.typ), sep)
+		fmt.Fprintf(&b, "  %s_%s : %s%s\n", c, f.name, t.coqType(pos, f.typ), sep)
 	}
 	b.WriteString("}.\n")
 	for i, f := range si.kept {
@@ -631,7 +674,7 @@ func (t *T) emitStruct(si *structInfo) {
 			}
 		}
 		fmt.Fprintf(&b, "Definition set_%s_%s (v : %s) (r : %s) : %s :=\n  mk_%s %s.\n", c, f.name,
-			t.coqType(si.spec.Pos(), f.typ), c, c, c, strings.Join(args, " "))
+			t.coqType(pos, f.typ), c, c, c, strings.Join(args, " "))
 		t.reserved[c+"_"+f.name] = true
 		t.reserved["set_"+c+"_"+f.name] = true
 	}
@@ -721,6 +764,15 @@ func (t *T) header() string {
 			what += " — " + in.Note
 		}
 		fmt.Fprintf(&b, "     %s : %s\n", k, what)
+	}
+	if len(t.cfg.SkipStmts) > 0 {
+		b.WriteString("\n   Statements dropped on purpose (configuration; matched by their exact source text):\n")
+		for i, sk := range t.cfg.SkipStmts {
+			if !t.skipped[i] {
+				continue
+			}
+			fmt.Fprintf(&b, "     `%s` — %s\n", sk.Text, sk.Note)
+		}
 	}
 	b.WriteString("*)\nFrom Coq Require Import List ZArith Bool.\nFrom Verif Require Import Lib.GoSem.\n")
 	for _, r := range t.cfg.Requires {
